@@ -354,7 +354,23 @@ func (engine) Body(r *simdrv.Run) {
 				w.order = append(w.order, st.name)
 				si.endInv = sim.Stamp()
 				r.Log("%d end-invoke %s sampled=%v", si.endInv, st.name, si.sampled)
-				sp.End()
+				if sim.Draw(6) == 0 {
+					// the span is ended by two goroutines at once (a worker's deferred End racing a watchdog,
+					// say): it must still be exported once (after seeded change C01-f)
+					fin := make(chan struct{})
+					simrt.Go(ptOp, func() {
+						simrt.Yield(ptOp)
+						sp.End()
+						close(fin)
+					})
+					sp.End()
+					simrt.Yield(ptOp)
+					<-fin // (a blocking wait the scheduler sees as such, not a polling loop)
+					simrt.Woke(ptOp)
+					r.Fault("span-ended-by-two-goroutines")
+				} else {
+					sp.End()
+				}
 				si.endRet = sim.Stamp()
 				r.Log("%d end-return %s", si.endRet, st.name)
 				r.Res.Ops++
